@@ -296,6 +296,35 @@ fn pair_line(ra: &R, rb: &R, salt: usize) -> String {
     format!("c11 pair-{}:{} {} {} => {}", ra.class(), rb.class(), value_tokens(&x), value_tokens(&y), obs)
 }
 
+/// two objects over the same keys that ENUMERATE IDENTICALLY: the second is an edited copy of the
+/// first (same hasher state, every entry overwritten in place).  The outcome must still be the one
+/// the values determine, not the one the shared enumeration order suggests.
+fn copy_edit_line(name: &str, ka: &[(&'static str, R)], kb: &[(&'static str, R)], salt: usize) -> String {
+    let x = R::Obj(ka.to_vec()).realize(salt);
+    let mut y = x.clone();
+    if let Value::Object(o) = &mut y {
+        for (k, v) in kb {
+            o.insert((*k).into(), v.realize(salt));
+        }
+    }
+    let obs = guarded(|| {
+        let f = observe_all(&x, &y);
+        let r = observe_all(&y, &x);
+        format!("F {} {} R {} {}", f.len(), f.join(" "), r.len(), r.join(" "))
+    });
+    // the same two values built independently of each other (different hasher states, different
+    // insertion orders): the outcome depends on the values only, so it must be the same
+    let x2 = R::Obj(ka.to_vec()).realize(salt + 5);
+    let y2 = R::Obj(kb.to_vec()).realize_distinct(salt + 8, &value_tokens(&x2));
+    let obs2 = guarded(|| {
+        let f = observe_all(&x2, &y2);
+        let r = observe_all(&y2, &x2);
+        format!("F {} {} R {} {}", f.len(), f.join(" "), r.len(), r.join(" "))
+    });
+    let tag = if obs == obs2 { "copyedit" } else { "BUILD-DEPENDENT" };
+    format!("c11 pair-{}:{}:obj:obj {} {} => {}", tag, name, value_tokens(&x), value_tokens(&y), obs)
+}
+
 fn indep_line(ra: &R, rb: &R, k: usize, salt: usize) -> String {
     let mut vals = Vec::new();
     let mut obs = Vec::new();
@@ -437,6 +466,24 @@ pub fn run(ctx: &mut Ctx) {
             ctx.emit(pair_line(&ra, &rb, salt).replacen("c11 pair-", &format!("c11 pair-witness:{}:", name), 1));
         }
         ctx.emit(indep_line(&ra, &rb, 8, 1).replacen("c11 indep-", &format!("c11 indep-witness:{}:", name), 1));
+    }
+    // --- edited copies: same keys, same enumeration order, entries pulling in opposite directions ---
+    {
+        use R::*;
+        let sets: Vec<(&'static str, Vec<(&'static str, R)>, Vec<(&'static str, R)>)> = vec![
+            ("two", vec![("p", Int(1)), ("q", Int(2))], vec![("p", Int(2)), ("q", Int(1))]),
+            ("three", vec![("a", Int(1)), ("b", Int(5)), ("c", Int(3))], vec![("a", Int(2)), ("b", Int(4)), ("c", Int(0))]),
+            ("str", vec![("k1", Str("b")), ("k2", Str("a")), ("k3", Str("c")), ("k4", Str("d"))], vec![("k1", Str("a")), ("k2", Str("b")), ("k3", Str("d")), ("k4", Str("c"))]),
+            ("incomparable", vec![("p", Int(1)), ("q", Str("a"))], vec![("p", Str("a")), ("q", Int(2))]),
+            ("one-differs", vec![("p", Int(1)), ("q", Int(2))], vec![("p", Int(1)), ("q", Int(3))]),
+            ("nested", vec![("o", Obj(vec![("x", Int(1)), ("y", Int(2))])), ("z", Int(9))], vec![("o", Obj(vec![("x", Int(2)), ("y", Int(1))])), ("z", Int(0))]),
+        ];
+        for (name, ka, kb) in &sets {
+            for salt in 0..12 {
+                ctx.emit(copy_edit_line(name, ka, kb, salt));
+                ctx.emit(copy_edit_line(name, kb, ka, salt + 100));
+            }
+        }
     }
     // --- query_state of every pool value ---
     for r in &pool {
